@@ -273,25 +273,7 @@ func initBuilders() {
 	for i, m := range models() {
 		m := m
 		name := fmt.Sprintf("g%02d/%s/%s", i, m.Kind, m.Layout)
-		builders = append(builders, builder{name, func() *Input {
-			in := &Input{Name: name, Model: m, Layout: m.Layout}
-			in.T = m.MustBuild()
-			if m.Layout <= geom.XYZM {
-				in.WKB = spareB(ref.EncodeWKB(m, false, false))
-				in.EWKB = spareB(ref.EncodeWKB(m, true, true))
-				in.Hex = fmt.Sprintf("%x", in.EWKB)
-			}
-			if wktOK(m) {
-				in.WKT = ref.WriteWKT(m, ref.WKTStyle{})
-			}
-			if js, err := geojson.Marshal(m.MustBuild()); err == nil {
-				in.JSON = spareB(js)
-			}
-			if m.Kind != ref.Collection {
-				in.Flat = spare(in.T.FlatCoords())
-			}
-			return in
-		}})
+		builders = append(builders, builder{name, func() *Input { return InputForModel(name, m) }})
 	}
 	// low-level coordinate tuples
 	tuples := [][][]float64{
@@ -330,6 +312,28 @@ func initBuilders() {
 		return &Input{Name: "igc", IGC: spareB([]byte(igcText)), Layout: geom.Layout(5),
 			T: geom.NewLineStringFlat(geom.Layout(5), spare([]float64{7.5, 46.25, 1000, 490273261, 990, 7.6, 46.3, 1010, 490273262, 1000}))}
 	}})
+}
+
+// InputForModel builds the input of a geometry model: the live geometry (fresh storage) and its
+// encodings.
+func InputForModel(name string, m *ref.G) *Input {
+	in := &Input{Name: name, Model: m, Layout: m.Layout}
+	in.T = m.MustBuild()
+	if m.Layout <= geom.XYZM {
+		in.WKB = spareB(ref.EncodeWKB(m, false, false))
+		in.EWKB = spareB(ref.EncodeWKB(m, true, true))
+		in.Hex = fmt.Sprintf("%x", in.EWKB)
+	}
+	if wktOK(m) {
+		in.WKT = ref.WriteWKT(m, ref.WKTStyle{})
+	}
+	if js, err := geojson.Marshal(m.MustBuild()); err == nil {
+		in.JSON = spareB(js)
+	}
+	if m.Kind != ref.Collection {
+		in.Flat = spare(in.T.FlatCoords())
+	}
+	return in
 }
 
 // NumInputs is the number of inputs; InputName and BuildInput address them by index.
